@@ -5,7 +5,10 @@ package strategy
 
 import (
 	"context"
+	"errors"
 	"math"
+
+	"github.com/projecteru2/core/types"
 )
 
 var vNames = []string{"n0", "n1", "n2", "n3", "n4"}
@@ -82,7 +85,7 @@ func vAuto(n, maxNeed int) {
 	vCover("auto-refused", err != nil)
 	vAssert("C02/auto-plan-iff-feasible", (err == nil) == feasible)
 	if err != nil {
-		vAssert("C02/auto-refusal-plans-nothing", plan == nil)
+		vAssert("C02/auto-refusal-plans-nothing", len(plan) == 0)
 		return
 	}
 	vAssert("C01/auto-only-candidates", vPlanKeys(plan, n))
@@ -119,7 +122,7 @@ func vGlobal(n, maxNeed int) {
 	vCover("global-refused", err != nil)
 	vAssert("C02/global-plan-iff-feasible", (err == nil) == (in.total >= need))
 	if err != nil {
-		vAssert("C02/global-refusal-plans-nothing", plan == nil)
+		vAssert("C02/global-refusal-plans-nothing", len(plan) == 0)
 		return
 	}
 	vAssert("C01/global-only-candidates", vPlanKeys(plan, n))
@@ -164,7 +167,7 @@ func vDrained(n int) {
 	vCover("drained-refused", err != nil)
 	vAssert("C02/drained-plan-iff-feasible", (err == nil) == (in.total >= need))
 	if err != nil {
-		vAssert("C02/drained-refusal-plans-nothing", plan == nil)
+		vAssert("C02/drained-refusal-plans-nothing", len(plan) == 0)
 		return
 	}
 	vAssert("C01/drained-only-candidates", vPlanKeys(plan, n))
@@ -206,7 +209,7 @@ func vEach(n int) {
 	vCover("each-refused", err != nil)
 	vAssert("C02/each-plan-iff-feasible", (err == nil) == (enough >= lim))
 	if err != nil {
-		vAssert("C02/each-refusal-plans-nothing", plan == nil)
+		vAssert("C02/each-refusal-plans-nothing", len(plan) == 0)
 		return
 	}
 	vAssert("C01/each-only-candidates", vPlanKeys(plan, n))
@@ -248,7 +251,7 @@ func vFill(n int) {
 		enough += vIte(eligible[i], 1, 0)
 	}
 	// "already filled" is neither a plan nor a refusal
-	filled := err != nil && plan != nil
+	filled := errors.Is(err, types.ErrAlreadyFilled)
 	vCover("fill-plan", err == nil)
 	vCover("fill-refused", vAnd(err != nil, !filled))
 	if filled {
@@ -260,7 +263,7 @@ func vFill(n int) {
 	}
 	vAssert("C02/fill-plan-iff-feasible", (err == nil) == (enough >= lim))
 	if err != nil {
-		vAssert("C02/fill-refusal-plans-nothing", plan == nil)
+		vAssert("C02/fill-refusal-plans-nothing", len(plan) == 0)
 		return
 	}
 	vAssert("C01/fill-only-candidates", vPlanKeys(plan, n))
